@@ -3,6 +3,7 @@ package types
 import (
 	"fmt"
 	sdk "github.com/cosmos/cosmos-sdk/types"
+	authtypes "github.com/cosmos/cosmos-sdk/x/auth/types"
 	"sort"
 )
 
@@ -113,12 +114,21 @@ func (account Account) Validate() error {
 			return fmt.Errorf("internal account id cannot be empty")
 		}
 	case BaseAccount:
-		if _, err := sdk.AccAddressFromBech32(account.Id); err != nil {
+		address, err := sdk.AccAddressFromBech32(account.Id)
+		if err != nil {
 			return fmt.Errorf("base account id \"%s\" is not a valid bech32 address: %w", account.Id, err)
+		}
+		// the distributor's own account is referenced with the MAIN type only: under any other type its coins,
+		// already recorded in the states, would be collected a second time
+		if address.Equals(authtypes.NewModuleAddress(DistributorMainAccount)) {
+			return fmt.Errorf("base account id \"%s\" is the distributor main account: use the %s account type", account.Id, Main)
 		}
 	case ModuleAccount:
 		if !accountExistInMacPerms(account.Id) {
 			return fmt.Errorf("module account \"%s\" doesn't exist in maccPerms", account.Id)
+		}
+		if account.Id == DistributorMainAccount {
+			return fmt.Errorf("module account \"%s\" is the distributor main account: use the %s account type", account.Id, Main)
 		}
 	default:
 		return fmt.Errorf("account \"%s\" is of the wrong type: %s", account.Id, account.Type)
